@@ -22,7 +22,8 @@ RULE = ("Hypothesis draws a system spec, optionally a history of 1-4 edits, then
         "every calculated attribute, to_json / system_to_json with and without calculated attributes, "
         "plot_footprints_by_category_and_object, plot_emission_diffs, object relationship and calculus graphs. After "
         "every operation snapshot(calculated) and snapshot(inputs) must equal those before (rtol 1e-9 / exact physical "
-        "value for inputs). Non-trivial = >=2 recomputation requests out of canonical order, or a plot/export call.")
+        "value for inputs). The inputs of the computed model are also compared with those of the same objects "
+        "built without a System (nothing computed yet). Non-trivial = >=2 recomputation requests out of canonical order, or a plot/export call.")
 ASSUMPTIONS = ["recomputing an object whose inputs did not change may replace value objects; only values are compared"]
 BUDGET = {"quick": dict(examples=12, wall_guard_s=600), "thorough": dict(examples=200, wall_guard_s=3000)}
 OPS = ["recompute", "recompute", "recompute", "recompute_system", "str", "explain", "to_json", "system_to_json",
@@ -117,6 +118,22 @@ def check(case, ctx):
     try:
         before_c = snap.snapshot(reach, calc=True)
         before_i = snap.snapshot(reach, calc=False, inputs=True)
+        # the inputs of the computed model against the same inputs as declared, before anything was computed:
+        # the same objects built without a System (nothing is calculated until a System exists)
+        spec_now = summary["final_spec"] if case["history"] else case["spec"]
+        try:
+            declared_objs = S.build(spec_now, id_seed=case.get("id_seed", 0) + 1, with_system=False)
+        except Exception:
+            declared_objs = None
+            labels.append("declared_build_failed")
+        if declared_objs is not None:
+            declared = snap.snapshot({n: declared_objs[n] for n in reach if n in declared_objs}, calc=False,
+                                     inputs=True)
+            d = snap.compare(declared, before_i, rtol=1e-12, keys=sorted(set(declared) & set(before_i)))
+            labels.append("declared_inputs_compared")
+            if d:
+                ctx.violation("input_altered", case, "computing the system altered input(s): %s %s" % (
+                    d[0][0], d[0][1]), {"kind": "input_altered", "op": "compute", "attr": d[0][0][1]})
         last_rank = -1
         recomputes = 0
         for op, pick in case["ops"]:
